@@ -100,6 +100,9 @@ def _observe(est, gt, est_m, gt_m, transforms, flip_est, flip_est_m, flip_gt=Non
         "hb_est": float(est.get_heading_bev()), "hb_gt": float(gt.get_heading_bev()),
         "hb_est_map": float(est_m.get_heading_bev(transforms)), "hb_gt_map": float(gt_m.get_heading_bev(transforms)),
         "err_roll_pitch": [float(r.heading_error[0]), float(r.heading_error[1])],
+        # the two yaw angles read off the orientations themselves (the yaw of the documented yaw-pitch-roll decomposition), for the
+        # tilted stream: the weight is 1 - d/pi of THESE angles exactly, whatever the roll and pitch
+        "yaw_est": float(est.state.orientation.yaw_pitch_roll[0]), "yaw_gt": float(gt.state.orientation.yaw_pitch_roll[0]),
     }
 
 
@@ -148,6 +151,12 @@ class HeadingCorr(Corr):
             rng.shuffle(order)
             out.append({"kind": "ap", "pairs": pairs, "map": i % 2 == 1, "e": rng.choice(ks), "order": order,
                         "t": [rng.randint(-800, 800) / 8.0, rng.randint(-800, 800) / 8.0, 0.0]})
+            if i % 3 == 0 and n >= 2:
+                # the same ranking with some results that HAVE a ground truth but miss the threshold (2 m away): they carry no weight and
+                # must not shift the weights of the TPs ranked after them (oracle only: the Coq model of this stream ranks TPs only)
+                far = [rng.random() < 0.4 for _ in range(n)]
+                if any(far) and not all(far):
+                    out.append(dict(out[-1], far=far))
         return out
 
     def run_impl(self, case):
@@ -170,12 +179,17 @@ class HeadingCorr(Corr):
             # the results of several frames pooled in one Ap: tracked objects keep their uuid while they turn (two tracks here)
             est, gt, est_m, gt_m = _pair_objects(pos, _qz(k1 * math.pi / N), _qz(k2 * math.pi / N), s1, s2, ego2map,
                                                  score=(60 - 5 * i) / 64.0, uuids=(f"t{i % 2}", f"g{i % 2}"))
+            if case.get("far") and case["far"][i]:
+                _, gt, _, gt_m = _pair_objects([pos[0] + 2.0, pos[1], pos[2]], _qz(k1 * math.pi / N), _qz(k2 * math.pi / N), s1, s2, ego2map,
+                                               score=(60 - 5 * i) / 64.0, uuids=(f"t{i % 2}", f"g{i % 2}"))
             results.append(R(est_m, gt_m, transforms=tr) if case["map"] else R(est, gt))
         shuffled = [results[j] for j in case["order"]]
         ap = Ap(TPMetricsAph(), [shuffled], len(results), [AutowareLabel.CAR], MatchingMode.CENTERDISTANCE, [1.0])
         return {"tp_list": [float(x) for x in ap.tp_list], "fp_list": [float(x) for x in ap.fp_list]}
 
     def coq_term(self, case, obs):
+        if case["kind"] == "ap" and case.get("far"):
+            return "true"
         if case["kind"] == "ap":
             pairs = llit([f"({c_or(k1, s1)}, {c_or(k2, s2)})" for (k1, k2, s1, s2) in case["pairs"]])
             if case["map"]:
@@ -225,6 +239,8 @@ class HeadingCorr(Corr):
         if case["kind"] == "ap":
             prev = 0.0
             ws = [1.0 - dist_k(k1, k2) / N for (k1, k2, _, _) in case["pairs"]]
+            if case.get("far"):
+                ws = [0.0 if f else w for w, f in zip(ws, case["far"])]
             if len(obs["tp_list"]) != len(ws):
                 return f"tp_list has {len(obs['tp_list'])} entries for {len(ws)} results"
             for i, (x, w) in enumerate(zip(obs["tp_list"], ws)):
@@ -411,7 +427,16 @@ class TiltCorr(Corr):
         d = circ_diff(y1, y2)
         if case.get("untilted"):
             return check_pair(obs, y1, y2, d, TOL, TOL, f"yaws {y1!r}, {y2!r} (no roll/pitch), signs {case['s1']},{case['s2']}, ego yaw {case['ey']!r}")
-        return check_pair(obs, y1, y2, d, TILT_TOL / math.pi, TILT_TOL, f"yaws {y1:.4f}, {y2:.4f} with roll/pitch {case['rp1']}, {case['rp2']}")
+        msg = check_pair(obs, y1, y2, d, TILT_TOL / math.pi, TILT_TOL, f"yaws {y1:.4f}, {y2:.4f} with roll/pitch {case['rp1']}, {case['rp2']}")
+        if msg:
+            return msg
+        # exact clause for tilted boxes (ego frame): 1 - d/pi with d the difference of the two orientations' own yaw angles
+        dy = circ_diff(obs["yaw_est"], obs["yaw_gt"])
+        for k in ("w_ego", "w_ego_swapped", "w_ego_flip"):
+            if abs(obs[k] - (1.0 - dy / math.pi)) > 1e-9:
+                return (f"{k} = {obs[k]} but 1 - d/pi of the two yaw angles ({obs['yaw_est']}, {obs['yaw_gt']}) is {1.0 - dy / math.pi} "
+                        f"(roll/pitch {case['rp1']}, {case['rp2']})")
+        return None
 
     def nontrivial(self, case, obs):
         return True
